@@ -23,3 +23,61 @@ Theorem C02_link_calc_starting_mass : forall (N : Num) tas ff total_dist lf max_
   @calc_formula N tas ff total_dist lf max_payload empty_mass max_mass.
 Proof. intros; reflexivity. Qed.
 Print Assumptions C02_link_calc_starting_mass.
+
+(* ---- round 4: more of the anchored code, re-extracted and tied to the model ---- *)
+From Coq Require Import ZArith List Bool.
+
+(* builders/base.py:_start_point — the first point carries the starting mass itself (unclamped), the fuel load, time 0,
+   distance 0, the initial altitude and the start of the ground track *)
+Theorem C02_link_start_point : forall (N : Num) (f : @flight N) (s : @sched N) sm tf,
+  @start_point_gen N (s_clm s) sm tf (f_o_lon f) (f_o_lat f) (f_az0 f) = @start_point N f s sm tf.
+Proof. intros; reflexivity. Qed.
+Print Assumptions C02_link_start_point.
+
+(* builders/legacy.py:_fly_level_change — the three points the loop body produces: the last point of the phase, the point
+   appended at the start of a segment, the state at its end (same segment fuel taken from fuel mass and aircraft mass,
+   clamp at zero, time and distance accumulation, position from the track step) *)
+Theorem C02_link_level_change_step : forall (N : Num) start idx delta lhv (p : @pt N) tas rocd ff gs lon lat az tas_end r2 f2,
+  @lc_last_gen N start idx delta p tas rocd ff = @lc_last N (start + idx * delta)%num p (tas, rocd, ff) /\
+  @lc_q_gen N start idx delta p tas rocd ff gs = @lc_q N (start + idx * delta)%num p (tas, rocd, ff) gs /\
+  @lc_next_gen N start idx delta lhv p tas rocd ff gs lon lat az tas_end
+    = @lc_next N (start + idx * delta)%num delta lhv p (tas, rocd, ff) gs (lon, lat, az) (tas_end, r2, f2) /\
+  @fwd_tas_gen N tas rocd = @fwd_tas N (tas, rocd, ff).
+Proof. intros; repeat split; reflexivity. Qed.
+Print Assumptions C02_link_level_change_step.
+
+(* builders/legacy.py:fly_cruise — the appended point and the state after the segment *)
+Theorem C02_link_cruise_step : forall (N : Num) step (p : @pt N) gs lon lat az tas rocd ff,
+  @crz_q_gen N p gs = @crz_q N p gs /\
+  @crz_next_gen N step p gs lon lat az tas rocd ff = @crz_next N step p gs (lon, lat, az) (tas, rocd, ff).
+Proof. intros; split; reflexivity. Qed.
+Print Assumptions C02_link_cruise_step.
+
+(* storage/container.py — make_point checks the bounds against the size and resolves a negative index against the size
+   (the model's [fixed = true]); growth by CAPACITY_EXPANSION from STARTING_CAPACITY when full, np.resize refill,
+   reads sliced to the size (shape matched by the extractor) *)
+Theorem C02_link_make_point : forall (A : Type) (d : A) (c : cont A) idx,
+  g_mp_bounds_checked = true /\ make_point d g_mp_normalises_negative c idx = make_point d true c idx.
+Proof. intros; split; reflexivity. Qed.
+Print Assumptions C02_link_make_point.
+
+Theorem C02_link_container_growth : g_start_capacity = START_CAP /\ g_capacity_expansion = EXPAND.
+Proof. split; reflexivity. Qed.
+Print Assumptions C02_link_container_growth.
+
+(* trajectories/trajectory.py:interpolate_time — np.interp(left = right = nan) on the stored points only, no other path *)
+Theorem C02_link_interpolate_time : g_interp_slices_time = true /\ g_interp_slices_values = true.
+Proof. split; reflexivity. Qed.
+Print Assumptions C02_link_interpolate_time.
+
+(* trajectories/ground_track.py:_overstep — from waypoint [-2] along azimuths[-1] by distance - index[-2]: one geodesic
+   from the start of the last leg, which is what [geo k (from + step)] stands for *)
+Theorem C02_link_overstep : g_overstep = ((-2)%Z, (-1)%Z, (-2)%Z).
+Proof. reflexivity. Qed.
+Print Assumptions C02_link_overstep.
+
+(* builders/base.py:fly — the fuel load is derived also when a starting mass is handed in (the model's [gfix = true]) *)
+Theorem C02_link_given_mass : forall (N : Num) perf geo fixed gsp wx f given it mi tol,
+  @fly N perf geo fixed gsp wx g_given_mass_fuel_derived f given it mi tol = @fly N perf geo fixed gsp wx true f given it mi tol.
+Proof. intros; reflexivity. Qed.
+Print Assumptions C02_link_given_mass.
